@@ -245,6 +245,9 @@ func (d *driver) runPath(t task, ts *TermStore, sol *Solver) {
 		name = splitReq[:i]
 		fmt.Sscanf(splitReq[i+1:], "%d", &n)
 		for v := 0; v < n; v++ {
+			if so := d.rc.splitOnly; strings.HasPrefix(so, name+"=") && so != fmt.Sprintf("%s=%d", name, v) {
+				continue // --split: debugging filter
+			}
 			sp := map[string]int{}
 			for k, x := range t.j.splits {
 				sp[k] = x
